@@ -17,6 +17,7 @@ import FordModel.IncludeCfg
 import FordModel.Lemmas.Include
 import FordModel.PassBack
 import FordModel.PassBackCfg
+import FordModel.Lemmas.PassBack
 namespace Ford.C02
 open Ford
 
@@ -660,7 +661,7 @@ theorem docbuffer_before_queue_reorders_witness :
 
 /-- The protocol the model above is a reading of is the one in the source: the chain at the top of
     `__next__` serves `pending` before `docbuffer` and nothing else (as it stands, or in the shape of
-    fixes/C02-include-without-statements.diff), the loop locals are the ones `resetLocals` resets,
+    fixes/C02-include-without-statements.diff),
     `pass_back` is `self.pending.insert(0, line)`, and `read_docstring` is the loop `collectDocs` reads
     followed by one `pass_back`. -/
 theorem iterator_protocol_pinned :
@@ -668,15 +669,11 @@ theorem iterator_protocol_pinned :
     (Generated.C02.nextHead = [
        "if len(self.pending) != 0:", "    self.include()", "if len(self.pending) != 0:",
        "    self.prevdoc = False", "    return self.pending.pop(0)",
-       "elif len(self.docbuffer) != 0:", "    self.prevdoc = True", "    return self.docbuffer.pop(0)",
-       "done = False", "continued = False", "reading_predoc = False", "reading_predoc_alt = 0",
-       "linebuffer = ''"] ∨
+       "elif len(self.docbuffer) != 0:", "    self.prevdoc = True", "    return self.docbuffer.pop(0)"] ∨
      Generated.C02.nextHead = [
        "if len(self.pending) != 0:", "    self.include()",
        "    self.prevdoc = False", "    return self.pending.pop(0)",
-       "elif len(self.docbuffer) != 0:", "    self.prevdoc = True", "    return self.docbuffer.pop(0)",
-       "done = False", "continued = False", "reading_predoc = False", "reading_predoc_alt = 0",
-       "linebuffer = ''"]) ∧
+       "elif len(self.docbuffer) != 0:", "    self.prevdoc = True", "    return self.docbuffer.pop(0)"]) ∧
     Generated.C02.passBackMethod = ["self.pending.insert(0, line)"] ∧
     Generated.C02.passBackFront = true ∧
     Generated.C02.readDocstring = [
@@ -694,5 +691,33 @@ example :
       [true, true, true, false, false]
       { rs := {}, pending := [], lines := [chars! "x = 1; y = 'a;b'; z = 3 !! dz", chars! "  !! more"] }).toOption
       = some [chars! "x = 1", chars! "y = 'a;b'", chars! "z = 3", chars! "!! dz", chars! "!! more"] := by decide
+
+
+/-- The batch model and the iterator agree on the queue: whatever `Include.drain` (the model every
+    include / `;` theorem above is about) returns for a queue, the reader returns item by item, one
+    `__next__` after the other, re-examining the head of the queue with `include()` on every call -
+    for any number of statements, includes and nested items.  For the tree as it is read by the
+    translator with the re-testing pops (`guarded`), `include()` in front of the top pop, and under
+    the hypothesis that an item which came out of an included file is left alone when `include()`
+    sees it a second time (in a flat file system: an include statement survives a nested reader only
+    for a missing `.h` file, which is missing for the outer reader too). -/
+theorem queue_call_by_call_is_batch_drain_partial (c : Include.Cfg) (resolve : Str → Include.Res)
+    (hg : c.guarded = true) (hi : c.incPrologue = true)
+    (hs : ∀ p l, Include.look c.kwLoose resolve p = .splice l →
+            ∀ y ∈ l, Include.look c.kwLoose resolve y = .keep)
+    (q out : List Str) (h : Include.drain c resolve .prologue q = .ok out) :
+    PassBack.Drains c resolve true q out :=
+  PassBack.drains_of_drain c resolve hg hi hs q out h
+
+/-- non-vacuity of the hypotheses and the conclusion: `x = 1; include 'f.inc'; z = 3` with `f.inc`
+    yielding two items -/
+example :
+    PassBack.Drains ⟨true, true, true, true⟩
+      (fun n => if n == chars! "f.inc" then .items [chars! "y = 2", chars! "!! dy"] else .missingH) true
+      [chars! "x = 1", chars! "include 'f.inc'", chars! "z = 3"]
+      [chars! "x = 1", chars! "y = 2", chars! "!! dy", chars! "z = 3"] :=
+  .step (rest := [chars! "include 'f.inc'", chars! "z = 3"]) (by rfl)
+    (.step (rest := [chars! "!! dy", chars! "z = 3"]) (by rfl)
+      (.step (rest := [chars! "z = 3"]) (by rfl) (.step (rest := []) (by rfl) (.done (by rfl)))))
 
 end Ford.C02
